@@ -121,7 +121,7 @@ theorem wfUFields_physical_plain : ∀ (cols : ArrUFields) (fs : UFields) (k : I
 end
 
 /-- field form -/
-theorem WF_physical_plain (f : Field) (a : Arr) (hp : physFreeDT f.dataType = true) (h : WF f a = true) :
+theorem WF_physical_plain (f : Field) (a : Arr) (hp : physFreeDT f.dataType = true) (h : WFS f a = true) :
     physical a = true := wf_physical_plain a _ _ hp h
 
 /-- `Spec.wf` alone does NOT give `Read.physical`: a FixedSizeList<Null, 2> column of 2^63 rows is well formed (a Null
@@ -130,9 +130,9 @@ for FixedSizeList / Dictionary columns cannot be dropped in the model (unbounded
 theorem wf_not_physical :
     let f : Field := .mk "c" (.fixedSizeList (.mk "element" .null false []) 2) false []
     let a : Arr := .fixedSizeList (2 ^ 63) none 2 ⟨"element", false, []⟩ (.null (2 ^ 64))
-    WF f a = true ∧ physical a = false := by
+    WFS f a = true ∧ physical a = false := by
   refine ⟨?_, ?_⟩
-  · simp only [WF, Field.dataType, Field.nullable, wf, C12.decodeAll_length, lenOf, validityOk, metaMatches, Field.name,
+  · simp only [WFS, Field.dataType, Field.nullable, wf, C12.decodeAll_length, lenOf, validityOk, metaMatches, Field.name,
       Field.metadata]
     decide
   · simp only [physical, lenOf, usizeMax]
